@@ -158,6 +158,7 @@ type solveOpts struct {
 	workDir  string
 	all      bool // run every solver to completion and cross-check (thorough)
 	par      int
+	noRetry  bool
 }
 
 type vcResult struct {
@@ -730,6 +731,33 @@ func solveAll(sc *smtScript, obs []*Obligation, opts solveOpts) {
 		}(ob)
 	}
 	wg.Wait()
+	// An obligation that no solver decided inside the budget (as opposed to one with a counterexample) is retried once,
+	// two at a time, with three times the budget: a busy machine must not turn a proof into an alarm.
+	if !opts.noRetry {
+		var again []*Obligation
+		for _, ob := range obs {
+			if ob.Status == "failed" && strings.HasPrefix(ob.Detail, "undischarged (no solver decided)") && ob.Kind != "strpos" {
+				again = append(again, ob)
+			}
+		}
+		if len(again) > 0 && len(again) <= 12 {
+			o2 := opts
+			o2.timeoutS = opts.timeoutS * 3
+			o2.par = 3
+			o2.noRetry = true
+			for _, ob := range again {
+				first := ob.Detail
+				ob.Status, ob.Detail, ob.Model, ob.Inputs = "", "", "", nil
+				_ = first
+			}
+			solveAll(sc, again, o2)
+			for _, ob := range again {
+				if ob.Status == "discharged" {
+					ob.Detail = "decided on the retry with a longer budget; " + ob.Detail
+				}
+			}
+		}
+	}
 	sort.SliceStable(obs, func(i, j int) bool { return obs[i].Name < obs[j].Name })
 }
 
